@@ -217,6 +217,8 @@ def gen_blocks(c, depth, n, in_item=False, in_quote=False, tight=False):
             break
         c.blocks += 1
         k = t.below(100)
+        if c.outline and not tight and t.chance(150):
+            k = 30 + t.below(14)       # outline mode: a heading (ATX or setext) more often
         if tight:
             b = N('para', inl=gen_inlines(c, allow_break=True))
         elif k < 30:
@@ -252,14 +254,34 @@ def gen_atx(c):
     level = 1 + t.below(6)
     if c.outline:
         level = outline_level(c)
-        inl = gen_inlines(c, allow_break=False, n=1 + t.below(3), allow_link=True, allow_html=False, plain=not t.chance(90))
-        inl = [x for x in inl if x.kind not in ('autolink', 'html', 'image', 'reflink', 'entity', 'escape')] or [gen_word(c)]
-        inl = _respace(inl)
+        inl = outline_title(c)
     else:
         inl = gen_inlines(c, allow_break=False, n=1 + t.below(3)) if not t.chance(20) else []
     closing = '' if (c.canonical and False) else t.choice(['', '', '#', '###', '##'])
     return N('atx', level=level, inl=inl, closing=closing, sp=1 if c.canonical else t.weighted([(4, 1), (1, 2), (1, 3)]),
              csp=1 if c.canonical else t.weighted([(4, 1), (1, 3)]), trail='' if c.canonical else t.choice(['', '', '  ']))
+
+
+TITLE_WORDS = ['Intro', 'Usage', 'alpha', 'beta', 'Install', 'notes', 'API', 'x', 'Part', 'two', 'Background', 'more', 'Zed']
+
+
+def outline_title(c):
+    """1-4 plain words, some of them wrapped in emphasis / strong / code / link markup (plain text unchanged)."""
+    t = c.t
+    items = []
+    for _ in range(1 + t.below(4)):
+        w = N('text', s=t.choice(TITLE_WORDS))
+        k = t.below(12)
+        if k == 0:
+            w = N('em', children=[w])
+        elif k == 1:
+            w = N('strong', children=[w])
+        elif k == 2:
+            w = N('code', content=w.s, extra=0)
+        elif k == 3:
+            w = N('link', children=[w], dest='/url', title='', angle=False, tq=None, tsep=1)
+        items.append(w)
+    return _respace(items)
 
 
 def _respace(inl):
@@ -292,7 +314,7 @@ def gen_setext(c):
         if level > 2:
             c.last_level = 0 if c.last_level == 0 else c.last_level
             return N('atx', level=level, inl=[gen_word(c)], closing='', sp=1, csp=1, trail='')
-        inl = _respace([gen_word(c) for _ in range(1 + t.below(3))])
+        inl = outline_title(c)
     else:
         inl = gen_inlines(c, n=1 + t.below(3))
         fixed = []
